@@ -457,7 +457,8 @@ def check_numbers(repo, rep):
     ok = True
     why = ''
     for text, want in (('12', 'int'), ('0', 'int'),
-                       ('1' + '0' * 40, 'int'), ('1.5', 'float'),
+                       ('1' + '0' * 40, 'int'), ('1' + '0' * 4000, 'int'),
+                       ('9' * 1283, 'int'), ('1.5', 'float'),
                        ('10.25', 'float')):
         def oracle(name, args, kwargs):
             if name in ('builtins.int', 'builtins.float'):
@@ -466,6 +467,7 @@ def check_numbers(repo, rep):
         t = absint.Obj('token', value=text, type='NUMBER', lexpos=0,
                        lineno=1)
         it = absint.Interp(repo, mod, oracle)
+        it.symbolic_ops = True
         args = {fi.params()[-1]: t}
         if fi.is_method and len(fi.params()) > 1:
             args[fi.params()[0]] = absint.Obj('self')
@@ -479,8 +481,9 @@ def check_numbers(repo, rep):
             v, absint.Sym) and v.name == '%s(%s)' % (want, text)
         if not good:
             ok = False
-            why = 'for the numeral %r the token value becomes %r' % (
-                text, v)
+            why = 'for the numeral %s the token value becomes %s' % (
+                text if len(text) < 50 else '<%d digits>' % len(text),
+                repr(v)[:120])
     rep.ob('R16e', fi.key + '/conversion', ok,
            'a numeral with a dot must be converted with float(), one '
            'without with int() (exact at any magnitude); %s' % why,
